@@ -426,19 +426,19 @@ def glue_source(d, has_builder):
 
 
 def macro_wrapped(d, lines):
-    """the same declaration produced by a macro_rules! expansion, the struct's name and its first field's name passed in as
+    """the same declaration produced by a macro_rules! expansion, the struct's name and its fields' names passed in as
     `ident` fragments (register-definition macros of HAL crates look like this)"""
     head = "pub struct %s {" % d["name"]
     k = max(j for j, l in enumerate(lines) if l == head)
     body = list(lines)
     body[k] = "pub struct $s {"
     params, args = ["$s:ident"], [d["name"]]
-    if d["fields"]:
-        fname = d["fields"][0]["name"]
+    for n, f in enumerate(d["fields"][:24]):              # every field's name arrives as an `ident` fragment
+        fname = f["name"]
         for j in range(k + 1, len(body)):
             if body[j].startswith("    %s: " % fname):
-                body[j] = "    $f: " + body[j][len("    %s: " % fname):]
-                params.append("$f:ident")
+                body[j] = "    $f%d: " % n + body[j][len("    %s: " % fname):]
+                params.append("$f%d:ident" % n)
                 args.append(fname)
                 break
     return (["macro_rules! mk_decl {", "    (%s) => {" % ", ".join(params)] + ["        " + l for l in body]
